@@ -221,7 +221,7 @@ fn render_sub(m: &SubMsg) -> String {
     };
     match &m.msg {
         CosmosMsg::Bank(BankMsg::Send { to_address, amount }) if amount.len() == 1 => {
-            format!("{}/{}/{}/{}{}", to_address, amount[0].amount, amount[0].denom, gas, on)
+            format!("{}/{}/{}/{}{}", to_address, amount[0].amount, slash_enc(&amount[0].denom), gas, on)
         }
         CosmosMsg::Wasm(WasmMsg::Execute { contract_addr, msg, funds }) if funds.is_empty() => {
             match from_json::<Cw20ExecuteMsg>(msg) {
@@ -361,7 +361,14 @@ const REMOTE_PORT: &str = "transfer";
 const OUR_PORT: &str = "wasm.ics20";
 /// `channel-10`: an id of which another local id (`channel-1`) is a text prefix
 const CHANS: [&str; 4] = ["channel-0", "channel-1", "channel-2", "channel-10"];
-const DENOMS: [&str; 2] = ["uatom", "ustake"];
+// `gamm` / `gamm/pool/1`: a native denom that itself contains the voucher separator, next to the denom that is its
+// first path segment (inside `/`-separated renderings a denom's own `/` is written `~`, see `slash_enc`)
+const DENOMS: [&str; 4] = ["uatom", "ustake", "gamm", "gamm/pool/1"];
+
+/// a denom inside a `/`-separated rendering (`sent=`, `sub=`): its own `/` becomes `~`
+fn slash_enc(d: &str) -> String {
+    d.replace('/', "~")
+}
 /// every actor starts with this much of every native denom and every cw20 token (2^66)
 const FUND: u128 = 1u128 << 66;
 const U64MAX: u128 = u64::MAX as u128;
@@ -712,7 +719,7 @@ impl Ics20Scen {
                             Ok(p) => format!(
                                 "{}/{}/{}/{}/{}/{}/{}",
                                 ch,
-                                p.denom,
+                                slash_enc(&p.denom),
                                 p.amount,
                                 p.sender,
                                 p.receiver,
@@ -1023,7 +1030,7 @@ impl Ics20Scen {
                     if f.len() == 7 {
                         self.flights.push(Flight {
                             chan: f[0].to_string(),
-                            denom: f[1].to_string(),
+                            denom: f[1].replace('~', "/"),
                             amt: f[2].parse().unwrap_or(0),
                             snd: f[3].to_string(),
                             rcv: f[4].to_string(),
